@@ -4,41 +4,41 @@ namespace Discv5.H
 
 /-- External request ids are tracked at most once (no duplicates among active + queued). -/
 theorem tracked_nodup (c : Cfg) (evs : List Ev) (h : AppDiscipline c evs) :
-    (trackedExt (run c evs)).Nodup := by
-  sorry
+    (trackedExt (run c evs)).Nodup :=
+  tracked_nodup' c evs h
 
 /-- A request that is not tracked is silent: no response and no failure is reported for it (unless
 this very step submits it). -/
 theorem untracked_silent (c : Cfg) (evs : List Ev) (e : Ev) (rid : Nat)
     (h : AppDiscipline c (evs ++ [e])) (hr : rid < 1000000) (hn : rid ∉ trackedExt (run c evs))
     (hs : ∀ ct b, e ≠ .appRequest ct rid b) :
-    ∀ o ∈ (step c (run c evs) e).2, aboutRid rid o = false := by
-  sorry
+    ∀ o ∈ (step c (run c evs) e).2, aboutRid rid o = false :=
+  untracked_silent' c evs e rid h hr hn hs
 
 /-- A failure report ends the tracking of that request, and is reported once in that step. -/
 theorem failure_untracks (c : Cfg) (evs : List Ev) (e : Ev) (rid : Nat) (er : Err)
     (h : AppDiscipline c (evs ++ [e])) (hr : rid < 1000000) (hf : Out.failed rid er ∈ (step c (run c evs) e).2) :
     rid ∉ trackedExt (run c (evs ++ [e])) ∧
-    ((step c (run c evs) e).2.filter (isFailure rid)).length = 1 := by
-  sorry
+    ((step c (run c evs) e).2.filter (isFailure rid)).length = 1 :=
+  failure_untracks' c evs e rid er h hf
 
 /-- Never two failures: over a whole history at most one failure is reported per request. -/
 theorem at_most_one_failure (c : Cfg) (evs : List Ev) (h : AppDiscipline c evs) (rid : Nat)
     (hr : rid < 1000000) :
-    ((outputs c evs).filter (isFailure rid)).length ≤ 1 := by
-  sorry
+    ((outputs c evs).filter (isFailure rid)).length ≤ 1 :=
+  at_most_one_failure' c evs h rid
 
 /-- Never both: after a failure was reported for a request nothing more is reported for it. -/
 theorem nothing_after_failure (c : Cfg) (evs rest : List Ev) (rid : Nat) (er : Err)
     (h : AppDiscipline c (evs ++ rest)) (hr : rid < 1000000) (hf : Out.failed rid er ∈ outputs c evs) :
-    ∀ o ∈ (trace c (run c evs) rest).flatten, aboutRid rid o = false := by
-  sorry
+    ∀ o ∈ (trace c (run c evs) rest).flatten, aboutRid rid o = false :=
+  nothing_after_failure' c evs rest rid er h hr hf
 
 /-- Never neither, part 1: every submitted request is still tracked or something was reported. -/
 theorem every_request_accounted (c : Cfg) (evs : List Ev) (h : AppDiscipline c evs) (rid : Nat)
     (hr : rid ∈ appRids evs) :
-    rid ∈ trackedExt (run c evs) ∨ ∃ o ∈ outputs c evs, aboutRid rid o = true := by
-  sorry
+    rid ∈ trackedExt (run c evs) ∨ ∃ o ∈ outputs c evs, aboutRid rid o = true :=
+  every_request_accounted' c evs h rid hr
 
 /-- Never neither, part 2 (invariant): a queued request always has a live timer behind it. -/
 theorem pending_has_releaser (c : Cfg) (evs : List Ev) : PendingHasReleaser (run c evs) :=
@@ -49,8 +49,8 @@ nothing is queued any more, hence every submitted request has had an outcome. -/
 theorem quiescent_complete (c : Cfg) (evs : List Ev) (h : AppDiscipline c evs)
     (h1 : (run c evs).active = []) (h2 : (run c evs).challenges = []) :
     (∀ e ∈ (run c evs).pending, e.2 = []) ∧
-    ∀ rid ∈ appRids evs, ∃ o ∈ outputs c evs, aboutRid rid o = true := by
-  sorry
+    ∀ rid ∈ appRids evs, ∃ o ∈ outputs c evs, aboutRid rid o = true :=
+  quiescent_complete' c evs h h1 h2
 
 /-- A request call is put on the wire at most `request_retries` times with the same packet:
 the retry counter never exceeds the configured number. -/
